@@ -210,4 +210,10 @@ func init() {
 		Assumptions: []string{"model socket c06Conn: chunks arrive as given; a read beyond them returns a net.Error with Timeout()=true; SetReadDeadline always succeeds", "time.Now abstracted to an arbitrary instant"},
 		QuickBudget: 10 * time.Minute, ThoroughBudget: 60 * time.Minute,
 	}
+	checks["ZZ"] = &CheckDef{
+		Pkgs: []string{"./zz_selftest"}, Hidden: true,
+		Harness: []string{"zz_selftest:Verif_Self_lost_update", "zz_selftest:Verif_Self_cas_ok"},
+		MaxIter: 200, Level: "other", Technique: techniqueText,
+	}
+
 }
